@@ -20,12 +20,12 @@ CONDS = [
          ':in-range/:out-of-range on <input> with type from a pool (missing, empty, every range type, upper case, '
          'other) and symbolic min / max / value strings: returns Booleans, never both',
          'len <= 8 quick / 11 thorough over "0-9 - : T W . e + space newline"; each attribute present or absent',
-         timeout={'quick': 110, 'thorough': 1500}),
+         timeout={'quick': 110, 'thorough': 900}),
     Cond('state_strings_ok',
          'every state pseudo-class over the forms document after injecting symbolic dir / lang / type / name / '
          'placeholder strings (all of Unicode) into one of seven elements',
          'len(dir) <= 4, len(lang) <= 3, len(type) <= 2, len(name), len(placeholder) <= 1',
-         timeout={'quick': 110, 'thorough': 1500}, parts={'quick': 5, 'thorough': 10}),
+         timeout={'quick': 110, 'thorough': 900}, parts={'quick': 5, 'thorough': 10}),
     Cond('odd_values_ok', 'attribute / class / id selectors on elements whose t / class / id attribute holds None, '
          'numbers, bool, bytes, nested lists, tuples, empty lists (HTML and XML trees)',
          '19 selectors x 14 odd values x 3 attributes x 2 document kinds (enumerated by symbolic index)',
